@@ -361,11 +361,21 @@ impl Synth {
                 ctx.case("totality:acc-collapse-empty", false, "acc-collapse -;-|-;-", "panic");
             }
         }
-        // accumulate of an empty slice: the one entry point without a value (`accs[0]`)
+        // accumulate of an empty slice: the neutral accumulator (regression of f706bff: `accs[0]` panicked)
         let got = catch(|| Accumulator::<S>::accumulate(&[]));
         let r = catch(|| <midnight_circuits::hash::poseidon::PoseidonChip<F> as midnight_circuits::instructions::hash::HashCPU<F, F>>::hash(&[])).unwrap_or(F::ZERO);
         match got {
-            Ok(out) => ctx.case("totality:accumulate-empty", false, &format!("accumulate {}", fe_hex(&r)), &acc_str(&out, &self.pts, false)),
+            Ok(out) => {
+                ctx.case("totality:accumulate-empty", false, &format!("accumulate {}", fe_hex(&r)), &acc_str(&out, &self.pts, false));
+                // the value is the conjunction over the empty set: `check` accepts it, also collapsed
+                let fb_map = fb_real(&[("-G".to_string(), -F::ONE)], &mut self.pts);
+                let mut col = out.clone();
+                let ok = catch(move || { let a = out.check(&tau_g2, &fb_map); col.collapse(); a && col.check(&tau_g2, &fb_map) });
+                if ok != Ok(true) {
+                    ctx.oracle_fail("accumulate:empty-slice-rejected", "Accumulator::accumulate(&[]) returns an accumulator that check (or check after collapse) does not accept", json!({"got": format!("{ok:?}")}));
+                }
+                ctx.count("totality:accumulate-empty:accepted");
+            }
             Err(p) => {
                 ctx.oracle_fail("accumulate:empty-slice-panics", "Accumulator::accumulate(&[]) panics (index out of bounds at accs[0]) instead of returning a value", json!({"panic": p, "where": "circuits/src/verifier/accumulator.rs: Accumulator::accumulate, `let mut acc = accs[0].clone();` (the in-circuit AssignedAccumulator::accumulate has the same line)"}));
                 ctx.case("totality:accumulate-empty", false, &format!("accumulate {}", fe_hex(&r)), "panic");
